@@ -66,6 +66,7 @@ type RollScn struct {
 	Touch    bool       `json:"touch,omitempty"`      // C14: an outside party refreshes the modification time of old files during the run
 	ViaAppend bool      `json:"via_append,omitempty"` // C13: every other write is an event handed to Append, stamped by the application's clock (TimeNow hook), not the wall clock
 	Twin     bool       `json:"twin,omitempty"`       // C13: a second live appender object on the same directory and name (odd writers use it)
+	SubDir   bool       `json:"sub_dir_name,omitempty"` // C14: the fileName carries a directory part ("svc/app.log"): nothing in the log directory is then the appender's own
 	Script   []string   `json:"script,omitempty"`     // C19 grid: sequential script of w | clk | out:<kind> | restore
 }
 
@@ -991,7 +992,7 @@ func init() { register(c14{}) }
 func (c14) ID() string    { return "C14" }
 func (c14) Level() string { return "exploration" }
 func (c14) Rule() string {
-	return "case = generated directory population (own rotated files '<name>.<14 digits>', prefix-sharing foreign files name.wf.<ts> / name.audit.<ts> / name.bak / name.1.gz / name.<13 or 15 digits>, unrelated files, sub-directories incl. one named like a rotated file) with modification times at least one hour on either side of now - maxAge, maxAge 1..720 h, optional sibling appender '<name>.wf' in the same directory, writers and clock decisions that trigger one or more rotations, optional ReadDir/Info/Remove failures; the real asynchronous cleanup goroutine runs as a simulated task. Non-trivial = a cleanup task ran with at least one expired own file and at least one expired foreign or fresh own file present; distinct = distinct context-switch trace hashes combined with the population. Since round 3: near-miss foreign names (app-log.<ts>, appXlog.<ts>), one failing listing followed by clean sweeps (expired files must then go), and a daylight-saving zone with the offset change inside the retention window (MaxAge is elapsed hours)."
+	return "case = generated directory population (own rotated files '<name>.<14 digits>', prefix-sharing foreign files name.wf.<ts> / name.audit.<ts> / name.bak / name.1.gz / name.<13 or 15 digits>, unrelated files, sub-directories incl. one named like a rotated file) with modification times at least one hour on either side of now - maxAge, maxAge 1..720 h, optional sibling appender '<name>.wf' in the same directory, writers and clock decisions that trigger one or more rotations, optional ReadDir/Info/Remove failures; the real asynchronous cleanup goroutine runs as a simulated task. Non-trivial = a cleanup task ran with at least one expired own file and at least one expired foreign or fresh own file present; distinct = distinct context-switch trace hashes combined with the population. Since round 3: near-miss foreign names (app-log.<ts>, appXlog.<ts>), one failing listing followed by clean sweeps (expired files must then go), and a daylight-saving zone with the offset change inside the retention window (MaxAge is elapsed hours). Since 10.18: one case in eight uses a fileName with a directory part (svc/app.log); every entry of the log directory is then foreign and non-trivial means an expired foreign file was present."
 }
 func (c14) Decode(raw json.RawMessage) (any, error) {
 	var s RollScn
@@ -1087,6 +1088,11 @@ func (c14) Gen(rt *rapid.T, thorough bool) any {
 		s.Clock = []int{ckAfterBoundary, ckPlusInterval, ckAfterBoundary, ckPlusInterval, ckAfterBoundary}
 		s.FaultDir = nil
 	}
+	if !s.ViaLogger && rapid.IntRange(0, 7).Draw(rt, "sub_dir_name") == 0 {
+		// a file name with a directory part: the rotated files live in a sub-directory; the files
+		// app.log.<ts> of the log directory itself belong to whoever writes app.log there
+		s.SubDir, s.Touch = true, false
+	}
 	if rapid.IntRange(0, 5).Draw(rt, "dst") == 0 {
 		// a retention window that contains a change of the local UTC offset: MaxAge is in elapsed
 		// hours, whatever the wall clock did in between. The run begins two days after the zone
@@ -1115,12 +1121,22 @@ func (c14) Run(x *Exec, scn any) {
 	mtimeOf := func(pf PopFile) time.Time {
 		return start.Add(-time.Duration(pf.AgeH)*time.Hour - time.Duration(pf.AgeMin)*time.Minute)
 	}
+	if s.SubDir {
+		rollName = "svc/app.log"
+		defer func() { rollName = "app.log" }()
+		x.FS.MkdirAll(rollDir + "/svc")
+	}
 	for _, pf := range s.Pop {
 		p := rollDir + "/" + pf.Name
 		if pf.Dir {
 			x.FS.MkdirAll(p)
 		} else {
 			x.FS.PutFile(p, []byte(strings.Repeat("x", pf.Size)), mtimeOf(pf))
+			if s.SubDir {
+				// the sub-directory holds files of the same names and ages (earlier runs of this
+				// appender); what happens to them is outside the statement and is not judged
+				x.FS.PutFile(rollDir+"/svc/"+pf.Name, []byte(strings.Repeat("y", pf.Size)), mtimeOf(pf))
+			}
 		}
 		x.FS.SetMtime(p, mtimeOf(pf))
 	}
@@ -1282,7 +1298,9 @@ func (c14) Run(x *Exec, scn any) {
 	for _, pf := range s.Pop {
 		// the .wf files belong to the sibling appender; it only cleans up when it rotates itself
 		// (never in the logger-built variant, where it stays idle)
-		own := !pf.Dir && (ownRe.MatchString(pf.Name) || (s.Separate && !s.ViaLogger && ownWfRe.MatchString(pf.Name)))
+		// (with a directory part in the file name no entry of the log directory can carry the
+		// appender's "<name>." prefix: everything listed there is somebody else's)
+		own := !s.SubDir && !pf.Dir && (ownRe.MatchString(pf.Name) || (s.Separate && !s.ViaLogger && ownWfRe.MatchString(pf.Name)))
 		maxAge := maxAge
 		if s.MaxAge2 > 0 && ownWfRe.MatchString(pf.Name) {
 			maxAge = time.Duration(s.MaxAge2) * time.Hour
@@ -1343,7 +1361,10 @@ func (c14) Run(x *Exec, scn any) {
 			o.violate("wrong-file-deleted", "C14/wrong-file-deleted/sibling-current-file", "the .wf appender's current file is gone although it is younger than maxAge and only the normal appender rotated")
 		}
 	}
-	o.Reached = x.Sim.Probes["boundary_crossed"] > 0 && expiredOwn > 0 && other > 0
+	o.Reached = x.Sim.Probes["boundary_crossed"] > 0 && (expiredOwn > 0 || s.SubDir) && other > 0
+	if s.SubDir {
+		x.Sim.Probe("file_name_with_directory_part")
+	}
 	o.ScnDistinct = true
 }
 
